@@ -820,6 +820,17 @@ class FX:
             self.numeric.add(targets[0].id)
             self.localdefs[targets[0].id] = val
             val = ast.Name(id=targets[0].id, ctx=ast.Load())
+        if isinstance(val, ast.ListComp) and isinstance(val.elt, ast.Call) and (_callee_name(val.elt) or "x")[0].isupper() and \
+                any(isinstance(t, ast.Attribute) and _is_name(t.value, "self") for t in targets):
+            nm = self._fresh_name(targets, env, None)
+            if nm is not None:
+                self.localdefs[norm(nm)] = val
+                val = nm
+        if len(targets) == 1 and isinstance(targets[0], ast.Name) and isinstance(val, ast.ListComp) and \
+                isinstance(val.elt, ast.Call) and (_callee_name(val.elt) or "x")[0].isupper():
+            # a list of freshly built objects: keep the list's name
+            self.localdefs[targets[0].id] = val
+            val = ast.Name(id=targets[0].id, ctx=ast.Load())
         if len(targets) == 1 and isinstance(targets[0], ast.Name) and isinstance(val, (ast.DictComp, ast.SetComp)):
             # a Python-level lookup table: keep its name
             self.localdefs[targets[0].id] = val
